@@ -583,7 +583,7 @@ impl Context {
             },
             Type::Optional(def) => {
                 let option = self.option_ident(this_type);
-                let item_type = self.rust_type(this_type, def.item_type());
+                let item_type = self.rust_type_inner(this_type, def.item_type(), key);
                 BuilderItemConfig::Into {
                     type_: quote!(#option<#item_type>),
                 }
